@@ -804,6 +804,11 @@ centralised_messages = {
         "message": "At op {op}: {msg} in regexp: {regexp},  in position {pos}.",
         "description": "Raised when a string pattern or regex fails at a specific position.",
     },
+    "1-1-18-9": {
+        "message": "At op {op}: Invalid parameter position.",
+        "description": "Raised when a string operator parameter is checked at a position "
+        "that the operator does not define.",
+    },
     "1-1-18-10": {
         "message": "At op {op}: Cannot have a Dataset as parameter",
         "description": "Occurs when a Dataset is incorrectly used as a parameter in a "
